@@ -501,9 +501,6 @@ pub fn run(scn: &PnmScenario, record: bool) -> RunResult {
                     rr.oracle("T", true);
                     let acked = wres.is_ok() && !matches!(flush, Some(Err(_)));
                     let hostile = led.write_destructive() > 0;
-                    // An adapter handed over by value flushes in its `Drop`, after the
-                    // library's last chance to see an error; std discards that error.
-                    let by_value_adapter = matches!(scn.writer.stack, WStack::Buf { by_ref: false, .. } | WStack::Line { by_ref: false });
                     if w == 0 || h == 0 {
                         rr.probe("zero-area image written");
                     }
@@ -528,18 +525,17 @@ pub fn run(scn: &PnmScenario, record: bool) -> RunResult {
                                 ),
                             ));
                         }
-                    } else if acked {
-                        rr.probe("write error surfaced only in Drop: write_ppm returned Ok (not judged)");
-                    } else {
+                    } else if !acked {
                         rr.probe("write error reported to the caller");
                     }
-                    if acked && hostile && !by_value_adapter {
-                        rr.probe("write error fired where the library could see it, yet Ok was returned (A applied)");
+                    if acked && hostile {
+                        rr.probe("write error fired, yet Ok was returned (A applied)");
                     }
-                    if acked && !(hostile && by_value_adapter) {
-                        // A: acknowledged means stored, as this very image. This includes
-                        // runs in which an error fired where the library could see it and
-                        // it answered Ok all the same.
+                    if acked {
+                        // A: acknowledged means stored, as this very image — whatever the
+                        // sink did. A library that answers Ok after a write error it could
+                        // have seen (if only by flushing the writer it was given) has lost
+                        // the image silently.
                         let enc = is_p6_encoding_of(&bytes, w, h, &px);
                         let dec = decode_plain(&bytes);
                         let want = PnmOut::Ok { w, h, px: px.clone() };
